@@ -317,7 +317,7 @@ func (f *Fix) exec(c Call, priv *xmss.XMSS, h *held) (res string) {
 			if _, ok := r.(runtime.Error); ok {
 				kind = "runtime-panic"
 			}
-			if msg, ok := r.(string); ok && strings.HasPrefix(msg, "simsched:") && msg != simsched.StepBound {
+			if msg, ok := r.(string); ok && strings.HasPrefix(msg, "simsched:") && msg != simsched.StepBound && msg != simsched.Deadlock {
 				panic(r) // a scheduler limitation is a harness fault (exit 2), never a result
 			}
 			res = fmt.Sprintf("%s:%T:%v", kind, r, r)
